@@ -700,6 +700,35 @@ class Gen(object):
         path = tgt.get_path()
         return {"op": "set_link", "x": self.ref(x), "path": path}
 
+    def g_set_include(self):
+        """include of a Section of a document saved earlier in this run (file: URL of the store)."""
+        secs = [s for s in self.secs() if s.parent is not None]
+        x = self.pick(secs if not (self.fault() and self.chance(0.2)) else self.secs())
+        if x is None:
+            return None
+        if self.fault() and self.chance(0.3):
+            return {"op": "set_include", "x": self.ref(x), "labels": ["include_unfetchable"],
+                    "url": self.pick(["file:///nowhere/missing.xml", "file:///nowhere/missing.xml#/a",
+                                      "sim-unknown-scheme://x/y.xml"])}
+        xml = [i for i, ent in enumerate(self.U.files) if ent["backend"] == "xml"]
+        other = [i for i, ent in enumerate(self.U.files) if ent["backend"] != "xml"]
+        if self.fault() and other and self.chance(0.3):
+            return {"op": "set_include", "x": self.ref(x), "f": self.pick(other), "frag": "/a",
+                    "labels": ["include_not_xml"]}
+        if not xml:
+            return None
+        f = self.pick(xml)
+        docs = self.U.of_kind("doc")
+        paths = [s.get_path() for d in docs for s in self.U.subtree(d) if kind_of(s) == "sec"]
+        if self.fault() and self.chance(0.4):
+            return {"op": "set_include", "x": self.ref(x), "f": f,
+                    "frag": self.pick(["/nope", "/a/zzz", "", "//"]),
+                    "labels": ["include_path_unresolvable"]}
+        frag = self.pick(paths) if self.chance(0.85) else None
+        if frag is not None and not self.room(6):
+            return None
+        return {"op": "set_include", "x": self.ref(x), "f": f, "frag": frag}
+
     def g_finalize(self):
         d = self.pick(self.U.of_kind("doc"))
         if d is None:
